@@ -230,7 +230,7 @@ Definition is_locally_bound (locals : list (list sym)) (name : sym) : bool :=
   existsb (fun scope => mem name scope) locals.
 
 (* ResolveContext::is_within_module_hierarchy *)
-Fixpoint starts_with (l p : list ident) : bool :=
+Fixpoint starts_with (l p : list ident) {struct p} : bool :=
   match p, l with
   | [], _ => true
   | x :: p', y :: l' => String.eqb x y && starts_with l' p'
